@@ -82,7 +82,7 @@ fn ref_fraction_value(v: u64, n: usize) -> u64 {
     }
 }
 
-//@ unit c05_parse_fraction prop=C05,C03 chunks=range:1:9 quick=all unwind=12 mem=5 timeout=1200 bound="every byte string of length <= 10, precision = parameter 1..=9: digits scaled to microseconds, rounded half-up beyond six digits, 1000000 on carry; '-' rejected; empty = 0"
+//@ unit c05_parse_fraction prop=C05,C03 chunks=range:1:6/range:1:9 quick=all unwind=12 mem=5 timeout=1200/10800 bound="every byte string of length <= 10, precision = parameter (quick 1..=6, thorough 1..=9 - the float multiply by 0.1/0.01/0.001 of the longer fractions takes over 20 min each): digits scaled to microseconds, rounded half-up beyond six digits, 1000000 on carry; '-' rejected; empty = 0"
 fn c05_parse_fraction(max_len: usize) {
     let (buf, len) = any_text::<10>();
     let s = &buf[..len];
@@ -110,7 +110,7 @@ fn c05_parse_fraction(max_len: usize) {
             assert!(us as u64 == ref_fraction_value(v, i));
             assert!(rest.len() == len - i);
             assert!(us <= 1_000_000);
-            kani::cover!(us == 1_000_000);
+            kani::cover!(us == 1_000_000 || max_len < 7);
             kani::cover!(i == max_len && rest.len() > 0);
             kani::cover!(i == 0);
         }
@@ -273,7 +273,7 @@ fn c03_small_leaves() {
     assert!(expect_char(s, c) == (len > 0 && s[0] == c));
 }
 
-//@ unit c03_write_u32 q23=1 prop=C03,C04 chunks=range:1:10 quick=all unwind=13 mem=3 timeout=900/3600 stubs=crate::util::try_format=>crate::verif_support::stub_try_format bound="every u32 with the number of decimal digits given by the parameter (1..=10: together every u32) x every width 1..=10: decimal digits, zero-padded to the width, never truncated, no panic"
+//@ unit c03_write_u32 q23=1 prop=C03,C04 chunks=range:1:8/range:1:10 quick=all unwind=13 mem=3 timeout=1200/7200 stubs=crate::util::try_format=>crate::verif_support::stub_try_format bound="every u32 with the number of decimal digits given by the parameter (quick: 1..=8 digits, thorough: 1..=10 = every u32) x every width 1..=10: decimal digits, zero-padded to the width, never truncated, no panic"
 fn c03_write_u32(nd: u32) {
     let v: u32 = kani::any();
     let width: usize = kani::any();
